@@ -637,10 +637,63 @@ def typed_scalar_table(tier, seed):
                         key=key, what=f"{opn}({np.dtype(dt).name} array, "
                         f"{type(sc).__name__}({sc})): values differ from the "
                         "reference evaluation"))
+    # constant-filled arrays and casts: the emitted program must produce the
+    # dtype the expression declares (zeros/ones/full/astype/arange for every
+    # result dtype -- an omitted or widened dtype= argument is invisible to
+    # the exact-arithmetic proof)
+    makers = {"zeros": lambda dt: pt.zeros((3,), dt),
+              "ones": lambda dt: pt.ones((2, 2), dt),
+              "full": lambda dt: pt.full((3,), 2, dt),
+              "zeros+1/3": lambda dt: (pt.zeros((3,), dt) + 1) / 3,
+              "astype": lambda dt: pt.make_placeholder(
+                  "a", (5,), np.int32).astype(dt) * 2,
+              "zeros_like": lambda dt: pt.zeros_like(pt.make_placeholder(
+                  "a", (5,), dt)),
+              "arange": lambda dt: pt.arange(5, dtype=dt)}
+    for mk_name, mk in makers.items():
+        for dt in (np.float16, np.float32, np.float64, np.int8, np.int32,
+                   np.int64, np.complex64, np.complex128, np.bool_):
+            try:
+                e = mk(dt)
+                bp = generate_numpy_like(e, T(), "f", False, (), ())
+            except Exception:  # noqa: BLE001
+                continue
+            n += 1
+            key = f"const|{mk_name}|{np.dtype(dt).name}"
+            xin = np.arange(5).astype(np.int32 if mk_name == "astype" else dt)
+            try:
+                with np.errstate(all="ignore"):
+                    got = np.asarray(bp(a=xin) if "a" in bp.expected_arguments
+                                     else bp())
+                    want = eval_array(e, {"a": xin})
+            except Exception as ex:  # noqa: BLE001
+                failures.append(dict(key=key, what=f"emitted program raised "
+                                     f"{type(ex).__name__}: {ex}"))
+                continue
+            if got.dtype != e.dtype or not np.allclose(
+                    got, want.astype(got.dtype), equal_nan=True):
+                failures.append(dict(
+                    key=key, what=f"{mk_name} with dtype {np.dtype(dt).name}: "
+                    f"the emitted program gives {got.dtype} "
+                    f"{got.tolist()!r:.80}, the expression declares "
+                    f"{e.dtype} {want.tolist()!r:.80}",
+                    replay_src=CONST_REPLAY.format(key=key)))
     return dict(name="typed-scalar-table", kind="bounded", evaluations=n,
                 failures=failures,
                 note="emitted programs executed with the installed NumPy: "
                      "array dtype x typed NumPy scalar x operation")
+
+
+CONST_REPLAY = '''
+import sys
+sys.path.insert(0, "/verif"); sys.path.append("/verif/.deps")
+from pyvc.replaylib import reproduced, not_reproduced
+from contracts.c14_numpy import typed_scalar_table
+for f in typed_scalar_table("quick", 1)["failures"]:
+    if f["key"] == {key!r}:
+        reproduced(f["what"])
+not_reproduced("emitted program has the declared dtype and values")
+'''
 
 
 TYPED_REPLAY = '''
